@@ -10,6 +10,7 @@ import (
 	"math"
 	"net"
 	"net/http"
+	"net/url"
 	"path"
 	"regexp"
 	"strconv"
@@ -506,18 +507,24 @@ func defaultRedirectTrailingSlashHandler(c Context) {
 		code = http.StatusPermanentRedirect
 	}
 
-	var url string
-	if len(req.URL.RawPath) > 0 {
-		url = FixTrailingSlash(req.URL.RawPath)
-	} else {
-		url = FixTrailingSlash(req.URL.Path)
+	// The Location is a relative reference built from the last path segment. It has to be made of the escaped
+	// form of that segment: a decoded '?', '#' or '%' would otherwise change the target of the redirect.
+	p := req.URL.RawPath
+	if len(p) == 0 {
+		p = (&url.URL{Path: req.URL.Path}).EscapedPath()
 	}
+	p = FixTrailingSlash(p)
 
-	if url[len(url)-1] == '/' {
-		localRedirect(c.Writer(), req, path.Base(url)+"/", code)
+	if p[len(p)-1] == '/' {
+		base := path.Base(p)
+		if strings.IndexByte(base, ':') >= 0 {
+			// A first segment containing ':' would be read as a URI scheme (RFC 3986 section 4.2).
+			base = "./" + base
+		}
+		localRedirect(c.Writer(), req, base+"/", code)
 		return
 	}
-	localRedirect(c.Writer(), req, "../"+path.Base(url), code)
+	localRedirect(c.Writer(), req, "../"+path.Base(p), code)
 }
 
 // ServeHTTP is the main entry point to serve a request. It handles all incoming HTTP requests and dispatches them
